@@ -1604,8 +1604,8 @@ class Compiler:
         yield EmitText(node.prefix + node.name + node.suffix)
 
     def visit_Attribute(self, node):
-        attr_format = (node.space + node.name + node.eq +
-                       node.quote + "%s" + node.quote)
+        prefix = node.space + node.name + node.eq + node.quote
+        attr_format = prefix.replace('%', '%%') + "%s" + node.quote
 
         filter_args = list(map(self._engine.cache.get, node.filters))
 
